@@ -65,6 +65,22 @@ class Ctx:
         return self._ustr
 
 
+def _failed_kinds(ctx):
+    kinds = set()
+    for key in ctx.tmpl.errors:
+        # pending:<Class>:<Kind,Kind>
+        parts = key.split(":")
+        if len(parts) >= 3:
+            kinds |= set(parts[2].split(","))
+            kinds.add(parts[1])
+    return kinds
+
+
+def _mentions_kind(key, kinds):
+    parts = key.split("|")
+    return any(k in parts or any(p.split(".")[0] == k for p in parts) for k in kinds)
+
+
 def check(prop: str, tier: str, only: str | None = None, repo: str | None = None) -> int:
     seed = int(os.environ.get("VERIF_SEED", "0") or 0)
     rep = Report(prop, tier, seed)
@@ -93,6 +109,17 @@ def check(prop: str, tier: str, only: str | None = None, repo: str | None = None
     if ctx._tmpl is not None:
         for key, msg in ctx.tmpl.errors.items():
             rep.analysis_errors.append(f"template {key} could not be extracted ({msg}): the rules were evaluated on the other templates only")
+        # nothing is concluded about a statement kind whose template is missing ("never read", "no
+        # check", ... would be artefacts of the empty path set)
+        bad_kinds = _failed_kinds(ctx)
+        for rr in rep.results:
+            kept = []
+            for f in rr.findings:
+                if _mentions_kind(f.key, bad_kinds):
+                    rep.analysis_errors.append(f"{f.rule}: verdict `{f.key}` dropped (its template could not be extracted)")
+                else:
+                    kept.append(f)
+            rr.findings = kept
     rep.extra["files_analysed"] = list(ctx.prog.files)
     rep.extra["source_digest"] = ctx.prog.digest()[:16]
     if ctx._cg is not None:
@@ -137,6 +164,10 @@ def probe(prop):
     if ctx._tmpl is not None:
         for key, msg in ctx.tmpl.errors.items():
             errs.append(f"template {key}: {msg}")
+        bad_kinds = _failed_kinds(ctx)
+        dropped = [k for k in new if _mentions_kind(k, bad_kinds)]
+        new = [k for k in new if k not in dropped]
+        errs += [f"verdict {k} dropped (template missing)" for k in dropped]
     print(json.dumps({"new": new, "analysis_errors": errs}))
     return 0
 
